@@ -91,6 +91,11 @@ func (w *World) verifyContractPass(con *Contract, clean map[string]bool) *Gen {
 	f := &frame{g: g, fn: fn, inst: 0, regs: map[ssa.Value]Val{}, top: true, con: con, props: con.Props, callCtr: map[string]int{}}
 	al := g.arr(st.heap, "alloc", "Bool")
 	g.assume(fmt.Sprintf("(not (select %s 0))", al))
+	if !callsRecover(fn) {
+		// sequential VCs describe non-panicking executions; only a function that itself calls recover()
+		// (a deferred panic handler under its own contract) is also verified for the panicking case
+		g.assume("(not recovered!)")
+	}
 	declParam := func(name string, t types.Type) Val {
 		v := g.havocVal("p_"+sanitize(name), t, "true")
 		switch sortOf(t) {
@@ -154,7 +159,7 @@ func (w *World) verifyContractPass(con *Contract, clean map[string]bool) *Gen {
 func (f *frame) checkPost(ri retInfo, pos token.Pos) {
 	g := f.g
 	con := f.con
-	env := &Env{g: g, vars: map[string]Val{}, heap: ri.heap, old: f.entry}
+	env := &Env{g: g, vars: map[string]Val{}, heap: ri.heap, old: f.entry, callResults: f.callResults}
 	f.bindParams(env)
 	env.lookup = f.localsAt(f.curBlock)
 	for i, n := range con.Results {
@@ -403,4 +408,18 @@ func sortedInts(m map[int]bool) []int {
 	}
 	sort.Ints(out)
 	return out
+}
+
+// callsRecover reports whether fn itself (not its closures) calls the builtin recover.
+func callsRecover(fn *ssa.Function) bool {
+	for _, b := range fn.Blocks {
+		for _, in := range b.Instrs {
+			if c, ok := in.(ssa.CallInstruction); ok {
+				if bi, ok := c.Common().Value.(*ssa.Builtin); ok && bi.Name() == "recover" {
+					return true
+				}
+			}
+		}
+	}
+	return false
 }
